@@ -47,7 +47,7 @@ def run(F, chk):
         "re-queues the stream; the decision itself is taken only by shared::end_stream_decision.")
     chk.not_decided = "liveness under real timers, completeness of relayed bodies, isolation between streams at run time"
     tbl = json.load(open(os.path.join(HERE, "..", "tables", "C02.json")))
-    rdy = F.body(MUXT + "ready")
+    rdy = lib.flat(F, F.body(MUXT + "ready"), keep=tuple(SDA) + (FTA, "::router::Router::connect"))      # the error->status mapping may live in a private helper
     # ---------------- R-C02-a --------------------------------------------------
     ra = chk.rule("R-C02-a", "T1+T7", "connect errors: exactly one default answer, with the mandated status", floor=8)
     ra.fn(rdy.path)
@@ -66,8 +66,17 @@ def run(F, chk):
             else:
                 ra.violation(key, rdy.where(cbi), "default answers installed per connect-error path: %s (want exactly one): a stream would stay in Link unanswered, or be answered twice" % sorted(counts))
             # status per error class
-            for ent in tbl["status_by_error"]:
-                adt, var, want = ent["enum"], ent["variant"], ent["status"]
+            def wrapper_of(inner_adt):
+                """(enum, variant) of an error enum whose variant carries `inner_adt` as its payload"""
+                for e_ in sorted({x["enum"] for x in tbl["status_by_error"]} | {"sozu_lib::BackendConnectionError", "sozu_lib::RetrieveClusterError"}):
+                    if e_ == inner_adt or e_ not in F.adts:
+                        continue
+                    for v_ in F.adts[e_]["variants"]:
+                        if any(inner_adt in f_["ty"] for f_ in v_["fields"]):
+                            return e_, v_["name"]
+                return None
+            pending = [(ent["enum"], ent["variant"], ent["status"], "%s::%s => %d" % (ent["enum"].split("::")[-1], ent["variant"], ent["status"])) for ent in tbl["status_by_error"]]
+            for adt, var, want, key0 in pending:
                 hits = []
                 try:
                     d = F.variant_discr(adt)[var]
@@ -83,19 +92,64 @@ def run(F, chk):
                     if dd and dd[2] == "assign" and dd[3]["k"] == "discr" and dd[3]["adt"] == adt:
                         tg = [x for v, x in t["ts"] if int(v) == d] or [t["else"]]
                         hits.append((bi, tg[0]))
-                key = "%s::%s => %d" % (adt.split("::")[-1], var, want)
+                key = key0
                 if not hits:
                     ra.violation(key, rdy.where(cbi), "Mux::ready no longer distinguishes %s::%s when mapping connect errors to answers" % (adt.split("::")[-1], var))
                     continue
                 codes = set()
                 for sbi, tgt in hits:
                     region = rdy.reach_from([tgt], removed=pops)
+                    # the part of the region that belongs to this variant alone: what other arms of the same match can
+                    # reach as well (a join behind a match that only logs, the shared answer call) says nothing
+                    # about this variant
+                    tsw = rdy.blocks[sbi]["t"]
+                    others = [x for _, x in tsw["ts"] if x != tgt] + ([tsw["else"]] if tsw["else"] != tgt else [])
+                    shared = rdy.reach_from(others, removed=pops) if others else set()
                     for bi, t in rdy.calls():
                         if bi in region and callee_of(t) in SDA:
                             # nearest answers only: those not dominated by another answer call inside the region
                             if first_answer(rdy, tgt, bi, weight):
                                 between = {x for x in region if bi in rdy.reach_from([x], removed=pops)}
-                                codes |= status_consts(rdy, t, between, bi)
+                                if bi in shared:
+                                    # answer call shared between the arms: only constants set on this arm's own blocks
+                                    # count; an arm that shares its block with sibling patterns (`A | B(_) => 503`) takes
+                                    # the first status assignment met from its target, not looking past another match on
+                                    # an error enum
+                                    own = status_consts(rdy, t, between - shared, bi)
+                                    if not own:
+                                        err_adts = {e_["enum"] for e_ in tbl["status_by_error"]}
+                                        code_locals = guards.slice_of_operand(rdy, t["args"][2])["locals"]
+                                        seen_, todo_ = {tgt}, [tgt]
+                                        while todo_:
+                                            x_ = todo_.pop()
+                                            got_ = set()
+                                            for st_ in rdy.blocks[x_]["s"]:
+                                                if isinstance(st_.get("lhs"), int) and st_["lhs"] in code_locals and st_["rv"]["k"] == "use" \
+                                                        and op_const(st_["rv"]["a"]) is not None and str(st_["rv"]["a"].get("ty")) == "u16":
+                                                    got_.add(op_const(st_["rv"]["a"]))
+                                            if got_:
+                                                own |= got_
+                                                continue
+                                            tt_ = rdy.blocks[x_]["t"]
+                                            if tt_["k"] == "switch" and x_ != tgt:
+                                                l_ = op_local(tt_["op"])
+                                                d_ = rdy.single_def(l_) if l_ is not None else None
+                                                if d_ and d_[2] == "assign" and d_[3]["k"] == "discr" and d_[3]["adt"] in err_adts:
+                                                    continue
+                                            for y_ in rdy.succ()[x_]:
+                                                if y_ not in seen_ and y_ in between:
+                                                    seen_.add(y_); todo_.append(y_)
+                                    if own:
+                                        codes |= own
+                                else:
+                                    codes |= status_consts(rdy, t, between, bi)
+                if not codes:
+                    # the mapping does not look inside this enum (`Wrapper(_) => status`): the status of the variant that
+                    # carries it decides
+                    w_ = wrapper_of(adt)
+                    if w_ and (w_[0], w_[1]) != (adt, var) and not key0.endswith("(via wrapper)"):
+                        pending.append((w_[0], w_[1], want, key0 + " (via wrapper)"))
+                        continue
                 if codes == {want}:
                     ra.ok(key, rdy.where(hits[0][0]), "answered with %d" % want)
                 else:
